@@ -398,7 +398,7 @@ func (rw *rewriter) selectStmt(ss *ast.SelectStmt) []ast.Stmt {
 			body = append(body, rw.stmt(b)...)
 		}
 		if cc.Comm == nil {
-			clauses = append(clauses, &ast.CaseClause{List: []ast.Expr{intLit(-1)}, Body: body})
+			clauses = append(clauses, &ast.CaseClause{List: nil, Body: body})
 			continue
 		}
 		switch cm := cc.Comm.(type) {
@@ -450,6 +450,10 @@ func (rw *rewriter) selectStmt(ss *ast.SelectStmt) []ast.Stmt {
 		}
 		clauses = append(clauses, &ast.CaseClause{List: []ast.Expr{intLit(idx)}, Body: body})
 		idx++
+	}
+	if !hasDefault {
+		// keep the statement terminating when every case returns (a select without default is)
+		clauses = append(clauses, &ast.CaseClause{List: nil, Body: []ast.Stmt{&ast.ExprStmt{X: call(ast.NewIdent("panic"), &ast.BasicLit{Kind: token.STRING, Value: strconv.Quote("vsched: select returned no case")})}}})
 	}
 	sw := &ast.SwitchStmt{Tag: call(&ast.SelectorExpr{X: ast.NewIdent(selName), Sel: ast.NewIdent("Do")}), Body: &ast.BlockStmt{List: clauses}}
 	return append(pre, sw)
